@@ -129,7 +129,7 @@ class Norm:
         if k == 'errmap': return ('errmap',)
         if k == 'errfn': return ('errfn',)
         if k == 'closure': return ('closure', t[1], tuple((n, N(v)) for n, v in t[2]))
-        if k == 'fnitem': return ('fnitem', t[1]['def'])
+        if k == 'fnitem': return ('fnitem', t[1] if isinstance(t[1], str) else t[1]['def'])
         if k == 'sres': return ('sres',) + tuple(t[1:])
         if k == 'srange': return ('srange', t[1], t[2])
         if k == 'mutated': return ('mutated', N(t[1]), N(t[2]))
@@ -221,7 +221,7 @@ class Norm:
         if name == 'rust_decimal::Decimal::round_dp_with_strategy':
             return ('round', a[0], a[1], a[2])
         if name == 'core::num::<impl u128>::pow': return ('pow', a[0], a[1])
-        if name in ('cosmwasm_std::Uint128::is_zero', 'rust_decimal::Decimal::is_zero'):
+        if name in ('cosmwasm_std::Uint128::is_zero', 'rust_decimal::Decimal::is_zero') or (name.endswith('Zero>::is_zero') and name.startswith('<')) or name.endswith('prelude::Zero::is_zero'):
             x, y = a[0], ('int', 0)
             if repr(x) > repr(y): x, y = y, x
             return ('eq', x, y)
@@ -231,6 +231,16 @@ class Norm:
             ty = ty.lstrip('&')
             if ty in ('cosmwasm_std::Addr', 'std::string::String', 'str'): return a[0]
             return ('tostr', a[0])
+        # format!("{}", x): a template with exactly one Display placeholder and no literal text is x.to_string()
+        if name == 'std::fmt::format' and len(args) == 1 and args[0][0] == 'call' and args[0][1].startswith('std::fmt::Arguments') and args[0][1].endswith('::new'):
+            fa = args[0][3]
+            if len(fa) == 2 and fa[0][0] == 'konst' and fa[0][1] in ('b"\\xc0\\x00"',) and fa[1][0] in ('arr', 'vec') and len(fa[1][1]) == 1:
+                d = fa[1][1][0]
+                if d[0] == 'call' and d[1].endswith('::new_display') and len(d[3]) == 1:
+                    ty = (d[2][0] if d[2] else '').lstrip('&')
+                    x = N(d[3][0])
+                    if ty in ('cosmwasm_std::Addr', 'std::string::String', 'str'): return x
+                    return ('tostr', x)
         if name in ('std::cmp::Ord::min', 'std::cmp::min', 'cosmwasm_std::Uint128::min') or name.endswith(' as std::cmp::Ord>::min'):
             x, y = a[0], a[1]
             if repr(x) > repr(y): x, y = y, x
